@@ -202,6 +202,13 @@ void profile_mesh(const json& plan, Ctx& ctx) {
 			std::vector<ShapeSnap> before = snapAll(*w.nif);
 			SaveSpec sp;
 			sp.raw = raw;
+			if (st.contains("fail_first")) {
+				// the disk fills up (or the stream errors) during the first attempt; the caller retries on a healthy stream
+				SaveSpec bad = sp;
+				bad.failAfter = size_t(ju64(st, "fail_first", 100));
+				SaveOut lost = saveNif(*w.nif, bad);
+				if (lost.streamFailed) { ctx.fault("F-WFAIL"); before = snapAll(*w.nif); }
+			}
 			SaveOut so = saveNif(*w.nif, sp);
 			ctx.hist.str(so.bytes);
 			if (so.rc != 0) ctx.viol("restart:save-failed", where + ": Save returned " + std::to_string(so.rc));
